@@ -150,3 +150,18 @@ fn replace_double_underscore_with_dollar(name: &ObjClassNameSlice) -> ObjClassNa
 	unsafe { ObjClassName::from_inner_unchecked(replaced) }
 }
 
+
+#[cfg(feature = "verif")]
+pub mod verif {
+	//! Verification hooks (feature `verif`): forwarding wrappers only.
+	use duke::tree::class::{ObjClassName, ObjClassNameSlice};
+	use crate::nest::Nests;
+
+	/// The translation table `MyRemapper::new(nests, apply)` builds, in insertion order.
+	pub fn my_remapper_pairs<A>(nests: &Nests<A>, apply: bool) -> Vec<(ObjClassName, ObjClassName)> {
+		super::MyRemapper::new(nests, apply).0.into_iter().collect()
+	}
+	pub fn replace_double_underscore_with_dollar(name: &ObjClassNameSlice) -> ObjClassName {
+		super::replace_double_underscore_with_dollar(name)
+	}
+}
